@@ -24,7 +24,8 @@ def showLunarFields (l : Lunar) : String :=
     l.yearZhiIndexByLiChun, l.yearGanIndexExact, l.yearZhiIndexExact, l.monthGanIndex, l.monthZhiIndex,
     l.monthGanIndexExact, l.monthZhiIndexExact, l.dayGanIndex, l.dayZhiIndex, l.dayGanIndexExact,
     l.dayZhiIndexExact, l.dayGanIndexExact2, l.dayZhiIndexExact2, l.timeGanIndex, l.timeZhiIndex,
-    l.weekIndex, l.solar.year, l.solar.month, l.solar.day]
+    l.weekIndex, l.solar.year, l.solar.month, l.solar.day,
+    (l.terms.getD 0 nilSolar).year, (termByName l.terms "立春").year]
 
 def showOptLunar : Option Lunar → String
   | none => "!"
